@@ -54,19 +54,19 @@ Definition counts_ok (ks : list core) (tr : list obs) : Prop :=
             | None => count_complete i tr = 0%nat /\ count_notify i tr = 0%nat
             end.
 
-Record rel (st : state) (tr : list obs) : Prop := mkRel {
+Record rel (k0 : N) (st : state) (tr : list obs) : Prop := mkRel {
   r_ok : calls_ok st;
   r_serials : call_serials tr = map k_serial (cores st);
-  r_drawn : exists n, drawn tr = first_serials n /\ serial st = spec_serial (N.of_nat n);
+  r_drawn : exists n, drawn tr = serials_from k0 n /\ serial st = spec_serial (k0 + N.of_nat n);
   r_counts : counts_ok (cores st) tr;
   r_paired : forall i m, In (OComplete i m) tr -> exists k, nth_error (cores st) i = Some k /\ m_rs m = k_serial k
 }.
 
-Lemma rel_init : rel init [].
+Lemma rel_init_at b : valid_base b -> rel (b - 1) (init_at b) [].
 Proof.
-  constructor; simpl; auto.
+  intros Hb. constructor; simpl; auto.
   - constructor.
-  - exists 0%nat. split; reflexivity.
+  - exists 0%nat. split; [reflexivity|]. simpl. rewrite N.add_0_r. symmetry. apply spec_serial_pred. exact Hb.
   - intros i. destruct i; simpl; auto.
   - intros i m [].
 Qed.
@@ -83,7 +83,7 @@ Proof.
   destruct (Nat.eqb i j); simpl; eexists; split; eauto. rewrite Hf; auto.
 Qed.
 
-Lemma rel_step st tr st' o : rel st tr -> summary st st' o -> calls_ok st' -> rel st' (tr ++ o).
+Lemma rel_step k0 st tr st' o : rel k0 st tr -> summary st st' o -> calls_ok st' -> rel k0 st' (tr ++ o).
 Proof.
   intros [Hok Hser [n [Hdr Hctr]] Hcnt Hpair] S Hok'.
   assert (CC : forall i, count_complete i (tr ++ o) = (count_complete i tr + count_complete i (filter key o))%nat)
@@ -105,7 +105,7 @@ Proof.
     constructor; auto.
     + rewrite CS, Hk, Hc, map_app, Hser. reflexivity.
     + exists (S n). split.
-      * rewrite DR, Hk, first_serials_snoc, Hdr, Hctr. reflexivity.
+      * rewrite DR, Hk, serials_from_snoc, Hdr, Hctr. reflexivity.
       * rewrite Hs, Hctr, next_serial_spec. f_equal. lia.
     + intros i. rewrite Hc, CC, CN, Hk. simpl. rewrite !Nat.add_0_r. specialize (Hcnt i).
       destruct (nth_error (cores st) i) as [k|] eqn:E.
@@ -120,7 +120,7 @@ Proof.
     constructor; auto.
     + rewrite CS, Hk, Hc, app_nil_r. exact Hser.
     + exists (S n). split.
-      * rewrite DR, Hk, first_serials_snoc, Hdr, Hctr. reflexivity.
+      * rewrite DR, Hk, serials_from_snoc, Hdr, Hctr. reflexivity.
       * rewrite Hs, Hctr, next_serial_spec. f_equal. lia.
     + intros i. rewrite Hc, CC, CN, Hk. specialize (Hcnt i). simpl. rewrite !Nat.add_0_r. exact Hcnt.
     + intros i m H. apply IN in H. rewrite Hk in H. destruct H as [H|[H|[]]]; [|discriminate]. rewrite Hc. auto.
@@ -165,35 +165,32 @@ Qed.
 Lemma run_cons st e h : run st (e :: h) = let '(st1, o1) := step st e in let '(st2, o2) := run st1 h in (st2, o1 ++ o2).
 Proof. reflexivity. Qed.
 
-Theorem rel_run h : forall st tr, rel st tr -> rel (fst (run st h)) (tr ++ snd (run st h)).
+Theorem rel_run k0 h : forall st tr, rel k0 st tr -> rel k0 (fst (run st h)) (tr ++ snd (run st h)).
 Proof.
   induction h as [|e h IH]; intros st tr R; simpl.
   - rewrite app_nil_r. exact R.
   - destruct (step st e) as [st1 o1] eqn:E. specialize (IH st1 (tr ++ o1)).
     destruct (run st1 h) as [st2 o2]. simpl in *. rewrite app_assoc. apply IH.
-    destruct (step_good _ _ _ _ E (r_ok _ _ R)) as [Hok S]. eapply rel_step; eauto.
+    destruct (step_good _ _ _ _ E (r_ok _ _ _ R)) as [Hok S]. eapply rel_step; eauto.
 Qed.
 
-Corollary rel_trace h : rel (fst (run init h)) (trace h).
-Proof. exact (rel_run h init [] rel_init). Qed.
+Corollary rel_trace b h : valid_base b -> rel (b - 1) (fst (run (init_at b) h)) (trace_at b h).
+Proof. intros Hb. exact (rel_run (b - 1) h (init_at b) [] (rel_init_at b Hb)). Qed.
 
 (* ---- at most once ---- *)
-Theorem at_most_once_all h : at_most_once (trace h).
+Theorem at_most_once_all b h : valid_base b -> at_most_once (trace_at b h).
 Proof.
-  intros i. pose proof (r_counts _ _ (rel_trace h) i) as H.
-  destruct (nth_error (cores (fst (run init h))) i) as [k|].
+  intros Hb i. pose proof (r_counts _ _ _ (rel_trace b h Hb) i) as H.
+  destruct (nth_error (cores (fst (run (init_at b) h))) i) as [k|].
   - destruct H as [H1 H2]. rewrite H1. destruct (k_hasnotify k), (k_completed k), (k_inflight k); simpl in *; lia.
   - destruct H as [-> ->]. lia.
 Qed.
 
 (* ---- serials ---- *)
-Lemma length_first_serials n : length (first_serials n) = n.
-Proof. unfold first_serials. rewrite map_length, seq_length. reflexivity. Qed.
-
-Theorem serials_all h : N.of_nat (length (drawn (trace h))) <= two32 - 1 -> serials_ok (trace h).
+Theorem serials_all b h : valid_base b -> N.of_nat (length (drawn (trace_at b h))) <= two32 - 1 -> serials_ok (trace_at b h).
 Proof.
-  intros Hn. destruct (r_drawn _ _ (rel_trace h)) as [n [Hd _]]. unfold serials_ok. rewrite Hd in *. rewrite length_first_serials in Hn.
-  split; [apply first_serials_nonzero|apply first_serials_nodup; exact Hn].
+  intros Hb Hn. destruct (r_drawn _ _ _ (rel_trace b h Hb)) as [n [Hd _]]. unfold serials_ok. rewrite Hd in *. rewrite length_serials_from in Hn.
+  split; [apply serials_from_nonzero|apply serials_from_nodup; exact Hn].
 Qed.
 
 Lemma call_serials_in_drawn tr s : In s (call_serials tr) -> In s (drawn tr).
@@ -209,21 +206,21 @@ Proof.
   constructor; auto. intro Hin. apply call_serials_in_drawn in Hin. contradiction.
 Qed.
 
-Lemma nowrap_nodup h : nowrap h -> NoDup (call_serials (trace h)).
-Proof. intros H. apply call_serials_nodup. apply serials_all. unfold nowrap in H. lia. Qed.
+Lemma nowrap_nodup b h : valid_base b -> nowrap_at b h -> NoDup (call_serials (trace_at b h)).
+Proof. intros Hb H. apply call_serials_nodup. apply serials_all; auto. unfold nowrap_at in H. lia. Qed.
 
 (* ---- pairing ---- *)
-Theorem paired_all h : paired (trace h).
+Theorem paired_all b h : valid_base b -> paired (trace_at b h).
 Proof.
-  intros i m Hin. pose proof (rel_trace h) as R. destruct (r_paired _ _ R i m Hin) as [k [Hk Hs]].
-  rewrite (r_serials _ _ R), nth_error_map, Hk. simpl. congruence.
+  intros Hb i m Hin. pose proof (rel_trace b h Hb) as R. destruct (r_paired _ _ _ R i m Hin) as [k [Hk Hs]].
+  rewrite (r_serials _ _ _ R), nth_error_map, Hk. simpl. congruence.
 Qed.
 
-Theorem unshared_nowrap h : nowrap h -> unshared (trace h).
+Theorem unshared_nowrap b h : valid_base b -> nowrap_at b h -> unshared (trace_at b h).
 Proof.
-  intros Hnw i j m Hin Hj. pose proof (paired_all h i m Hin) as Hi. pose proof (nowrap_nodup h Hnw) as Hnd.
+  intros Hb Hnw i j m Hin Hj. pose proof (paired_all b h Hb i m Hin) as Hi. pose proof (nowrap_nodup b h Hb Hnw) as Hnd.
   rewrite NoDup_nth_error in Hnd. apply Hnd; [|congruence]. apply nth_error_Some. congruence.
 Qed.
 
-Theorem pairing_all h : nowrap h -> paired (trace h) /\ unshared (trace h).
-Proof. intros H. split; [apply paired_all|apply unshared_nowrap; exact H]. Qed.
+Theorem pairing_all b h : valid_base b -> nowrap_at b h -> paired (trace_at b h) /\ unshared (trace_at b h).
+Proof. intros Hb H. split; [apply paired_all|apply unshared_nowrap]; auto. Qed.
